@@ -335,9 +335,14 @@ pub fn bp_reset(seed: u64) -> Scenario {
         r.ready = true;
         r.hid = pick(&mut rng, &[0usize, 1, 3]);
         if side == 0 {
-            let mut ops = vec![SendOp::Data { n: big(&mut rng), eos: i != victim }];
+            // the bystanders either end with their big chunk or send a little more after the back-pressure is gone
+            let more = i != victim && rng.gen_bool(0.5);
+            let mut ops = vec![SendOp::Data { n: big(&mut rng), eos: i != victim && !more }];
             if i == victim {
                 ops.append(&mut victim_op(&mut rng));
+            } else if more {
+                ops.push(SendOp::WaitQ { k: 3 });
+                ops.push(if rng.gen_bool(0.5) { SendOp::Data { n: 10, eos: true } } else { SendOp::Trailers { hid: 1 } });
             }
             r.ops = ops;
         } else {
@@ -347,9 +352,13 @@ pub fn bp_reset(seed: u64) -> Scenario {
     }
     if side == 1 {
         for i in 0..nreq {
-            let mut ops = vec![SendOp::Response { status: 200, hid: 0, eos: false }, SendOp::Data { n: big(&mut rng), eos: i != victim }];
+            let more = i != victim && rng.gen_bool(0.5);
+            let mut ops = vec![SendOp::Response { status: 200, hid: 0, eos: false }, SendOp::Data { n: big(&mut rng), eos: i != victim && !more }];
             if i == victim {
                 ops.append(&mut victim_op(&mut rng));
+            } else if more {
+                ops.push(SendOp::WaitQ { k: 3 });
+                ops.push(if rng.gen_bool(0.5) { SendOp::Data { n: 10, eos: true } } else { SendOp::Trailers { hid: 1 } });
             }
             s.srv.push(SrvProg { ops, read: ReadPol::default(), note: String::new() });
         }
